@@ -164,7 +164,7 @@ package dnsserver
 // type, the query class and the name — two different (location, type, class, name) never share an entry.
 // (ol0, ol1, ot, oc, on) is any other tuple.
 //@ ghost ol0 int, ol1 int, ot int, oc int, on str
-//@ before Cache.Get#0 assert[key-injective] cacheKey == sprintf("%.3d%.3d%.3d%s", ol0, ol1, ot, oc, on) ==> ol0 == loc.LocID[0] && ol1 == loc.LocID[1] && ot == uf.qtypeof(state.Req) && oc == uf.qclassof(state.Req) && on == uf.qnameof(state.Req)
+//@ before Cache.Get#0 assert[key-injective] cacheKey == sprintf("%.3d%.5d%.5d%s", ol0, ol1, ot, oc, on) ==> ol0 == loc.LocID[0] && ol1 == loc.LocID[1] && ot == uf.qtypeof(state.Req) && oc == uf.qclassof(state.Req) && on == uf.qnameof(state.Req)
 //@ before FBDNSDB.writeAndLog#0 assert[badvers] a != nil && a.Rcode == dns.RcodeBadVers && a.Id == r.Id && a.Response
 //@ before FBDNSDB.writeAndLog#1 assert[hit-shape] resp != nil && resp.Id == r.Id && resp.Response
 //@ before FBDNSDB.writeAndLog#1 assert[hit-question] len(r.Question) >= 1 ==> len(resp.Question) == 1 && resp.Question[0] == r.Question[0] && resp.Opcode == r.Opcode
